@@ -78,6 +78,9 @@ class TimingGen:
         rng = self.rng
         roll = rng.random()
         if roll < 0.45:
+            if rng.random() < 0.03:
+                # an infinite *relative* delay elapses when the clock reaches infinity
+                return {'k': 'delay', 'd': float('inf')}
             delay = rng.choice(self.grid)
             return {'k': 'delay', 'd': delay} if delay > 0 else {'k': 'instant'}
         if roll < 0.75 and rng.random() < 0.3:
@@ -124,7 +127,7 @@ class TimingGen:
                      'steps': self.steps(depth + 1, rng.randint(0, 3))}
             roll = rng.random()
             if roll < 0.3:
-                child['after'] = rng.choice(self.grid)
+                child['after'] = rng.choice(self.grid) if rng.random() < 0.96 else float('inf')
             elif roll < 0.55:
                 child['at'] = self.date()
             step['children'].append(child)
